@@ -123,7 +123,8 @@ def branch_conditions(body, prov):
     cache = body.__dict__.setdefault("_guard_cache", {})
     if key in cache:
         return cache[key]
-    base = direct_branch_conditions(body, prov) + checked_sub_conditions(body, prov) + payload_conditions(body, prov)
+    base = (direct_branch_conditions(body, prov) + checked_sub_conditions(body, prov) + payload_conditions(body, prov)
+            + range_contains_conditions(body, prov))
     out = base + via_bool_locals(body, prov, base)
     cache[key] = out
     return out
@@ -152,6 +153,66 @@ def checked_sub_conditions(body, prov):
                     for val, tgt in sw["arms"]:
                         if val == 0 and body.preds(tgt) == [bk]:
                             out.append((tgt, None, "Lt", a, c, bk))
+    return out
+
+
+_RANGE_NEW = re.compile(r"= (?:std|core)::ops::RangeInclusive::<(\w+)>::new\(const (.+?), const (.+?)\) ->")
+_RANGE_AGG = re.compile(r"= (?:std|core)::ops::Range::<(\w+)> \{ start: const (.+?), end: const (.+?) \}$")
+
+
+def _const_of_text(txt, ty):
+    """the value of a constant as MIR prints it: 5_u32, -3_i16, 'a', '\\u{f000}'"""
+    txt = txt.strip()
+    if ty == "char":
+        m = re.match(r"^'\\u\{([0-9a-fA-F]+)\}'$", txt)
+        if m:
+            return int(m.group(1), 16)
+        if len(txt) == 3 and txt[0] == txt[2] == "'":
+            return ord(txt[1])
+        return None
+    m = re.match(r"^(-?\d+)_" + re.escape(ty) + "$", txt)
+    return int(m.group(1)) if m else None
+
+
+def range_bounds(term):
+    """(lo term, hi term, hi inclusive?) of a range value: a promoted `a..=b` / `a..b` of literals, `RangeInclusive::new(a, b)`, or the
+    aggregate `Range { start, end }`; None when the term is none of these"""
+    import sym
+    t = sym.strip(term)
+    while t[0] in ("ref", "deref"):
+        t = sym.strip(t[1])
+    if t[0] == "promoted":
+        for st in t[1]:
+            for rx, incl in ((_RANGE_NEW, True), (_RANGE_AGG, False)):
+                m = rx.search(st)
+                if m and m.group(1) in INT_TYS:
+                    ty = m.group(1)
+                    lo, hi = _const_of_text(m.group(2), ty), _const_of_text(m.group(3), ty)
+                    if lo is None or hi is None:
+                        return None
+                    return (("c", lo, ty, m.group(2)), ("c", hi, ty, m.group(3)), incl)
+        return None
+    if t[0] == "call" and re.search(r"ops::(range::)?RangeInclusive::<\w+>::new$", t[1] or "") and len(t[2]) == 2:
+        return (t[2][0], t[2][1], True)
+    if t[0] == "agg" and re.search(r"ops::(range::)?Range$", str(t[1])) and len(t[3]) == 2 and tuple(t[4] or ()) == ("start", "end"):
+        return (t[3][0], t[3][1], False)
+    return None
+
+
+def range_contains_conditions(body, prov):
+    """`(a..=b).contains(&x)` / `(a..b).contains(&x)`: on the true edge a <= x and x <= b (x < b) hold. The false edge is a
+    disjunction and contributes nothing."""
+    out = []
+    for tb, fb, call, sw in bool_call_conditions(body, prov):
+        if tb is None or not re.search(r"ops::(range::)?Range(Inclusive)?::<\w+>::contains$", call[1] or "") or len(call[2]) != 2:
+            continue
+        rb = range_bounds(call[2][0])
+        if rb is None:
+            continue
+        x = canon(("deref", call[2][1]))
+        lo, hi, incl = rb
+        out.append((tb, None, "Ge", x, lo, sw))
+        out.append((tb, None, "Le" if incl else "Lt", x, hi, sw))
     return out
 
 
